@@ -109,6 +109,40 @@ func (ex *Exec) callBuiltin(st *State, f *Frame, b *ssa.Builtin, args []Value, i
 			ex.throwRuntime(st, "nil", "value method called using nil pointer", instr)
 		}
 		return p
+	case "String": // unsafe.String(ptr, len)
+		p := args[0].(Ptr)
+		n := ex.toInt64(args[1].(*Term), b.Type().(*types.Signature).Params().At(1).Type())
+		if p.Obj == 0 {
+			return Str{}
+		}
+		sl := ex.sliceFromElemPtr(st, p, n)
+		return ex.mkStr(ex.sliceBytes(st, sl, "unsafe.String"))
+	case "Slice": // unsafe.Slice(ptr, len)
+		p := args[0].(Ptr)
+		n := ex.toInt64(args[1].(*Term), b.Type().(*types.Signature).Params().At(1).Type())
+		if p.Obj == 0 {
+			return SliceV{Off: ex.c64(0), Len: ex.c64(0), Cap: ex.c64(0)}
+		}
+		return ex.sliceFromElemPtr(st, p, n)
+	case "SliceData":
+		s := args[0].(SliceV)
+		if s.Obj == 0 {
+			return Ptr{}
+		}
+		return ex.elemPtr(st, s, ex.c64(0))
+	case "StringData":
+		str := args[0].(Str)
+		bs := ex.strBytes(str)
+		if len(bs) == 0 {
+			return Ptr{}
+		}
+		o := st.newObj(ObjCells, types.NewArray(types.Typ[types.Uint8], int64(len(bs))), "stringdata")
+		arr := make(ArrayV, len(bs))
+		for i := range bs {
+			arr[i] = bs[i]
+		}
+		o.Val = arr
+		return Ptr{Obj: o.id, Path: pathAppend("", 0)}
 	case "close":
 		return nil // channels are not modelled; closing one has no effect the executor can observe
 	}
@@ -154,6 +188,27 @@ func (ex *Exec) elemPtr(st *State, s SliceV, i *Term) Ptr {
 		return Ptr{Obj: s.Obj, Path: pathAppend(s.Path, int(e.c))}
 	}
 	return Ptr{Obj: s.Obj, Path: s.Path, Sym: e}
+}
+
+// sliceFromElemPtr builds a slice of n elements starting at the array element p points to.
+func (ex *Exec) sliceFromElemPtr(st *State, p Ptr, n *Term) SliceV {
+	o := st.obj(p.Obj)
+	if o.kind == ObjSmt {
+		return SliceV{Obj: p.Obj, Off: p.Sym, Len: n, Cap: n}
+	}
+	if p.Sym != nil {
+		return SliceV{Obj: p.Obj, Path: p.Path, Off: p.Sym, Len: n, Cap: n}
+	}
+	el := pathElems(p.Path)
+	if len(el) == 0 {
+		// pointer to a scalar object: one-element view
+		panic(cutPath{"unsafe.Slice/String from a pointer that is not an array element"})
+	}
+	parent := p.Path[:len(p.Path)-4]
+	if _, ok := navGet(o.Val, el[:len(el)-1]).(ArrayV); !ok {
+		panic(cutPath{"unsafe.Slice/String from a pointer that is not an array element"})
+	}
+	return SliceV{Obj: p.Obj, Path: parent, Off: ex.c64(uint64(el[len(el)-1])), Len: n, Cap: n}
 }
 
 var lambdaCounter int
